@@ -168,7 +168,9 @@ def check(rep, proof):
     rng = random.Random(rep.seed)
     n = 1200 if rep.tier == "quick" else 30000
     cases = [gen_case(rng) for _ in range(n)]
-    rc, res, out, wall = vlib.run_impl("c02", dict(cases=cases, seed=rep.seed, oracle_runs=300 if rep.tier == "quick" else 12000),
+    rc, res, out, wall = vlib.run_impl("c02", dict(cases=cases, seed=rep.seed,
+                                                   # a broken proof / translation widens the search for a failing input
+                                                   oracle_runs=(300 if rep.tier == "quick" else 12000) if proof["ok"] else 6000),
                                        timeout=3400)
     if res is None:
         rep.violation("implementation harness crashed", dict(relation="corr_C02_reverse", log=out[-3000:]), has_input=False)
